@@ -26,9 +26,14 @@ def loop(pkg, test, qs=4, ts=16, replay=None, timeout=900, ttimeout=7200, q=1, t
     return d
 
 CHECKS = {
-    "C01": dict(tests=[rapid("e2e", "TestC01", 320, 24000, qs=16, ts=16, timeout=1200, ttimeout=14000)]),
+    "C01": dict(tests=[rapid("e2e", "TestC01", 960, 32000, qs=16, ts=16, timeout=1200, ttimeout=14000)]),
     "C02": dict(tests=[rapid("storeprops", "TestC02", 24000, 2400000, qs=8)]),
     "C03": dict(tests=[rapid("storeprops", "TestC03Store", 24000, 1600000, qs=8, replay="TestC03StoreReplay")]),
+    "C04": dict(tests=[
+        rapid("e2e", "TestC04", 160, 9600, qs=16, ts=16, timeout=1200, ttimeout=14000, replay="TestC04Replay"),
+        dict(pkg="e2e", test="TestC04AllPositions", kind="rapid", replay="TestC04AllPositionsReplay", thorough_only=True,
+             quick=dict(checks=0, shards=0), thorough=dict(checks=1600, shards=16, timeout=14000)),
+    ]),
     "C06": dict(tests=[rapid("pure", "TestC06", 40000, 4000000, qs=8)]),
     "C08": dict(tests=[rapid("storeprops", "TestC08", 16000, 1600000, qs=8)]),
     "C09": dict(tests=[rapid("storeprops", "TestC09", 24000, 1600000, qs=8)]),
@@ -43,7 +48,7 @@ CHECKS = {
         fuzz("pure", "FuzzC15Parser", 120),
     ]),
     "C17": dict(tests=[
-        rapid("pure", "TestC17", 32000, 3200000, qs=8),
+        rapid("pure", "TestC17", 32000, 3200000, qs=8, shrinktime="8s"),  # a hanging request costs 10 s per attempt: do not shrink for long
     ]),
     "C18": dict(tests=[
         rapid("storeprops", "TestC18Outputs", 8000, 800000, qs=4, replay="TestC18OutputsReplay"),
